@@ -2,6 +2,24 @@
 
 # id -> dict(text, note, technique, design_ref)  for claimed properties
 CLAIMED = {
+    "C19": dict(
+        text=(
+            "Only the bookkeeping discipline of the four peak kernels is decided, as a necessary condition of "
+            "the conservation laws: find_peaks counts / adds every hit exactly once on every path of the hit "
+            "loop, resets the counters where a peak is opened, keeps the peak end as a running maximum, closes "
+            "a peak exactly at `next start - end >= gap_threshold` / last hit / too long, and uses the "
+            "extensions with the right sign (linear forms); _merge_peaks adds area, per-channel area and hit "
+            "count of every constituent once and spans first start to last end; _split_peaks tiles the parent "
+            "with a cursor that is reset per parent and advanced after every fragment, and split parents are "
+            "replaced and the result re-sorted; _replace_merged pairs every copy / insert with its cursor "
+            "advance and keeps its conservation asserts. NOT decided (numeric, out of reach of static "
+            "analysis): waveform integrals and down-sampling, area-fraction times and widths, moving "
+            "averages, goodness of split, highest density regions."
+        ),
+        note="Trusted: CPython ast; numba compiles the kernels with the semantics of the Python source.",
+        technique="accumulation-on-every-path rules on the loop CFG, cursor / tiling discipline, linear forms with sign conditions for boundary arithmetic, paired store / advance rule",
+        design_ref="DESIGN.md section 4 C19 and section 7",
+    ),
     "C03": dict(
         text=(
             'Writer/reader agreement decided statically: codec-table entries resolve to code of the named codec library and save/load use matching table roles; every metadata key read on a non-failing loader path is written by the saver side; per-chunk metadata has provenance in the chunk being written; rechunker typestate (flush and save before close, chunk numbers advance once per save); empty-chunk handling agrees on both sides. Necessary conditions of a faithful round trip; bit-identity is not decided.'
@@ -198,13 +216,7 @@ CLAIMED = {
     ),
 }
 
-NOT_APPLICABLE = {
-    "C19": (
-        "every clause is numeric (areas add up, windows tile, helper outputs equal formulas) and "
-        "lives in loop-carried arithmetic of numba kernels; no lock, ordering, ownership, "
-        "exhaustiveness or guard structure carries the property, so no sound static rule is in reach"
-    ),
-}
+NOT_APPLICABLE = {}
 
 # Properties whose checks are still being built in this session (listed as unclaimed until done).
 PENDING = {
